@@ -9,6 +9,7 @@ NOTE = ("Trusted: Lean 4.33 kernel; axioms propext, Classical.choice, Quot.sound
 TECH = "Lean 4 machine-checked proof over an executable model + model/implementation correspondence check"
 CLAIMED = {
  "C04": ("Theorems (Lean 4, all section tables of any length with arbitrary u32 fields, all rvas/offsets, all images and placements): rva_to_file_offset/file_offset_to_rva equal the first-match specification with exactly the error classes the property names; slice on a file view succeeds iff non-null, aligned (rva and stored bytes), raw data of the first containing section inside the buffer and min bytes remain, and then returns [prd+(rva-va), end of raw data); returned refs are RefOK; slice start = r2f; inversion both ways on stored-and-mapped bytes of well-formed tables plus a witness that it fails without well-formedness; get_section_bytes. Correspondence: generated and adversarial section tables (overlap, wrap, outside buffer), every section edge +-1, (min,align) around the remaining length, file and wrapper constructors.", "DESIGN.md section 3 C04"),
+ "C05": ("Theorems (all views of both formats and kinds, all overridden bases, all addresses/lengths): rva->va->rva and va->rva->va are the identity on (0, SizeOfImage) when the VA space does not wrap and rva_to_va reports Overflow otherwise; a mapped view slices the buffer at offset rva (exact iff); read(B+r) = slice(r) (same ref, same error class) for file and mapped views; every typed read (derva, copy, into, fixed array, sentinel array, C string, wide string) returns exactly what the untyped slice begins with under its length rule, fails with Bounds/Encoding when bytes/terminator are missing (never truncated, never over-read), terminates; zero address -> Null; slice/read results are RefOK; prefix monotonicity of the scans. Correspondence: planted strings/arrays at section ends, every section edge, both address paths, wrappers, bases near 2^32/2^64.", "DESIGN.md section 3 C05"),
  "C07": ("Theorems: validate = ok iff Accept (structural predicate written from the PE layout, both directions), totality, other-format images get PeMagic, the agnostic constructor selects the parser matching the magic and accepts whatever a specific parser accepts, all header accessor refs are inside the buffer/aligned at the prescribed offsets (data directories truncated to 16, section table through SizeOfOptionalHeader), by_name/by_rva = first match, check_sum = standard 16-bit PE checksum for lengths divisible by 4, struct layout regenerated from the source = PE/COFF spec (kernel decide). Correspondence: header-layout stream around every structure end and limit through all six constructors, the repository's binaries at four placements.", "DESIGN.md section 3 C07"),
  "C14": ("Theorems: block iterator terminates with <= len/8 blocks, blocks are consecutive (offset + min(align4(max(size,8)), remaining)), entry count clamped to the directory, all block refs inside the directory and aligned for any 4-aligned placement; build output blocks are page aligned, size multiple of 4 and >= 12; flat(build ps) = ps for every list of pairs with types 1..15 (no sortedness needed) under the global < 4 GiB bound, with a kernel-checked proof that the unbounded statement is false (size as u32 truncation at 2^31 entries). Correspondence: arbitrary 4-aligned directories incl. SizeOfBlock near 2^32, odd sizes, truncations; build + re-parse by the real parser on page-edge rvas.", "DESIGN.md section 3 C14"),
  "C20": ("Theorems C20_enumerate_exact etc. (all byte strings, all configurations with thresholds >= 1, no bound): the model of Enumerator::next reports exactly the qualifying maximal printable runs, ascending and separated, resumes after the terminator and is fused; the printable set is the table regenerated from the source on every run and proved equal to the documented set by the kernel. Correspondence: exhaustive small strings over byte classes, all 256 byte values, random long strings x configs x bases; the executable specification (brute-force maximal runs) is evaluated on every case.", "DESIGN.md section 3 C20"),
